@@ -128,6 +128,7 @@ fn main() {
         }
         "c08-wit" => fuzz::wit_child(args.get(2).map(|s| s.as_str()).unwrap_or("")),
         "c20" => capi::c20_cases(&mut rng, &tier, &mut out),
+        "c20-rt" => capi::c20_rt_cases(&mut rng, &tier, &mut out),
         "c20r" => capiread::c20r_cases(&mut rng, &tier, &mut out),
         "c15" => mem::c15_cases(&mut rng, &tier, &mut out),
         "c15-dims" => memdims::c15_dims_cases(&mut rng, &tier, &mut out),
